@@ -32,7 +32,8 @@ def floors(tier):
     return {"accepted": 2000, "kind=exact": 300, "kind=short": 200, "kind=long": 200,
             "kind=empty": 200, "kind=random": 200, "id=undoc-id": 100, "id=unknown-class": 100,
             "mode=SETPOLL": 300, "len>=256": 10, "after-checksum-twin": 300, "cfgval-items": 60, "long-zero-state": 40, "size~2^k": 300,
-            "byte-sweep": 100000, "special-tail": 5000}
+            "byte-sweep": 100000, "special-tail": 5000,
+            "twin=crc32": 80, "twin=adler32": 80}
 
 
 def plan(tier, seed):
@@ -274,7 +275,15 @@ def check(case) -> core.Out:
         # history: a frame with the same class, ID, length and checksum but a
         # different payload is parsed immediately before the frame under test
         first = codec.ubx_frame(clsid[0:1], clsid[1:2], payload)
-        payload = codec.fletcher_twin(payload, case["i"], case["d"])
+        how = case["d"] % 3
+        twin = None
+        if how == 1:
+            # equal CRC-32 over class, ID, length and payload (a cheap digest someone
+            # might key a cache on), different Fletcher checksum
+            twin = codec.crc32_twin(clsid + len(payload).to_bytes(2, "little"), payload, case["i"])
+        elif how == 2:
+            twin = codec.adler_twin(payload, case["i"])  # equal Adler-32 and Fletcher-8
+        payload = twin if twin is not None else codec.fletcher_twin(payload, case["i"], case["d"])
         try:
             pyubx2.UBXReader.parse(first, msgmode=mode, parsebitfield=bf)
         except Exception:  # noqa
@@ -284,6 +293,7 @@ def check(case) -> core.Out:
                f"bf={bf}", f"validate={case.get('validate', 1)}"]
     if case.get("kind") == "twin":
         classes.append("after-checksum-twin")
+        classes.append(("twin=fletcher", "twin=crc32", "twin=adler32")[case["d"] % 3])
     if case.get("cfgval"):
         classes.append("cfgval-items")
     if len(payload) >= 256:
